@@ -4,10 +4,16 @@
 From Coq Require Extraction.
 From Coq Require Import ExtrOcamlBasic.
 From CP Require Import Bytes Runtime TimePb Schema Codec Decode WF RefSpec.
+From CP Require Import GenNames GenOrder.
 Extraction Language OCaml.
 Extraction "model.ml"
   Bytes.enc_varint Bytes.dec_varint Bytes.n2b Bytes.b2n
   Runtime.Sov Runtime.Soz Runtime.protowire_size Runtime.EncodeVarint Runtime.Skip
   TimePb.TsAdd TimePb.TsAddStd TimePb.TsCompare
   Codec.pulsar_marshal Codec.msg_size Codec.emit Codec.key_ltb Decode.pulsar_unmarshal Decode.empty_msg
-  WF.wf WF.wt_msg RefSpec.ref_marshal RefSpec.canon RefSpec.strip_unknown RefSpec.norm.
+  WF.wf WF.wt_msg RefSpec.ref_marshal RefSpec.canon RefSpec.strip_unknown RefSpec.norm
+  GenNames.md_ident GenNames.fd_ident GenNames.fast_ident GenNames.msgtype_ident GenNames.msgtype_var GenNames.list_ident GenNames.map_ident
+  GenNames.rewrite_field GenNames.is_reserved GenNames.go_ok GenNames.dec GenNames.undec GenNames.names_wf GenNames.fd_safe GenNames.derived_idents
+  GenNames.nodupb GenNames.getter_unique GenNames.struct_members
+  GenOrder.gen_outcome GenOrder.msg_index GenOrder.scan GenOrder.indexed GenOrder.flatten_gen GenOrder.flatten_spec GenOrder.nodup_paths GenOrder.index_of
+  GenOrder.lookup_path GenOrder.mt_name.
